@@ -2172,7 +2172,16 @@ def m_closure_call(ex, st, fr, callee, args, argtys, dty):
     return inl
 
 
+def m_str_is_empty(ex, st, fr, callee, args, argtys, dty):
+    """String::is_empty / str::is_empty of a literal."""
+    v = _deref_val(ex, st, args[0])
+    if isinstance(v, StrC):
+        return z3.BoolVal(len(v.s) == 0)
+    return NotImplemented
+
+
 STD_MODELS = [
+    (r"^(std::string::)?String::is_empty$|^core::str::<impl str>::is_empty$|^str::is_empty$", m_str_is_empty),
     (r"^<\{closure@[^}]*\} as Fn(Mut|Once)?<.*>>::call(_mut|_once)?$", m_closure_call),
     (r"^<bool as (Ord|PartialOrd)>::cmp$", m_bool_cmp),
     (r"^(Option|Result)::<.*>::unwrap_or_default$", m_unwrap_or_default_bool),
